@@ -282,6 +282,16 @@ def evaluate(case: Dict[str, Any]) -> Outcome:
     if run_f["ppu"] != run_t["ppu"]:
         out.fail("window_changes_average_price", f"average price {run_f['ppu']} vs {run_t['ppu']} (to-date only)")
         return out
+    # ... and the average price "reflects all history up to the to-date": cost (fees included) of everything acquired up to the
+    # to-date over the amount acquired, from the rows
+    acquired = [t for t in txs if t.is_lot and (to_d is None or t.day <= to_d)]
+    amount_in = sum((t.crypto_in for t in acquired), Fraction(0))
+    if amount_in > 0:
+        want_ppu = sum((t.fiat_in_with_fee for t in acquired), Fraction(0)) / amount_in
+        for label, run in (("to-date only", run_t), ("from+to", run_f)):
+            if abs(run["ppu"] - want_ppu) > Fraction(1, 10**20) * max(want_ppu, Fraction(1, 10**9)):
+                out.fail("average_price_not_up_to_the_to_date", f"window {from_s}..{to_s} ({label}): average price {run['ppu']}; cost of everything acquired up to the to-date / amount acquired = {want_ppu}")
+                return out
     labels_t = {(f["ev"], f["lot"]): tuple(f[k] for k in LABELS) for f in run_t["fractions"]}
     for f in got:
         if labels_t.get((f["ev"], f["lot"])) != tuple(f[k] for k in LABELS):
